@@ -57,12 +57,22 @@ def rel(a, b, tol):
     return abs(a - b) <= tol * max(abs(a), abs(b), 1e-300)
 
 
+def reverse_info(info):
+    """the same exact ray travelled from its last point to its first (points, leg velocities, wall tilts reversed;
+    a wall that reflected still reflects, the one that transmitted still transmits)"""
+    n = len(info["points"])
+    refl = info.get("reflect", [None] + [k >= 2 for k in range(1, n - 1)] + [None])
+    return {"points": list(info["points"])[::-1], "vels": list(info["vels"])[::-1], "tilts": list(info["tilts"])[::-1], "reflect": refl[::-1]}
+
+
 def tube_virtual_distance(info, delta=2e-6):
     """geometric definition: follow two neighbouring rays launched at the source through the same
     (possibly tilted) planar walls; at every wall the virtual-source distance jumps from rho to
     rho' (measured from the divergence of the refracted/reflected pencil); d = rho_n / prod(rho'/rho)"""
     pts, vels, tilts = info["points"], info["vels"], info["tilts"]
     n = len(pts)
+    # which interior interfaces reflect (default: the immersion layout, transmission at the first wall, reflections after)
+    reflect = info.get("reflect", [None] + [k >= 2 for k in range(1, n - 1)] + [None])
     src = pts[0]
     d0 = (pts[1] - pts[0]) / np.linalg.norm(pts[1] - pts[0])
 
@@ -80,7 +90,7 @@ def tube_virtual_distance(info, delta=2e-6):
             eta = vels[k] / vels[k - 1]
             dn = d @ nk
             dt2 = eta * (d - dn * nk)
-            sign = -np.sign(dn) if k >= 2 else np.sign(dn)
+            sign = -np.sign(dn) if reflect[k] else np.sign(dn)
             d = dt2 + sign * np.sqrt(1 - dt2 @ dt2) * nk
             p = q
             hits.append(q)
